@@ -143,3 +143,39 @@ Print Assumptions C04_conditioned_state.
 Print Assumptions C04_regular_single.
 Print Assumptions C04_dimension.
 Print Assumptions C04_no_panic.
+
+(* ---- lifted to whole frames (Proofs/FrameLiftP.v): every action evaluation of a frame, for any registry, raw input
+   and consumed set.  [ins] are the own (results, value) pairs of the action's inputs as read in that evaluation
+   (suppressed inputs contribute nothing); on a regular frame the merge is exactly the contributing inputs, the
+   merged value passes the action-level modifiers, the stored value has the declared dimension, nothing panics ---- *)
+From BEI Require Import Model.Frame Proofs.StateP Proofs.ValueP Proofs.RegistryP Proofs.FrameLiftP.
+Theorem C04_every_evaluation_of_a_frame : forall tm r c gs,
+  Forall (fun e =>
+    let m := er_table e in
+    let ab := er_bind e in
+    let a := ab_id ab in
+    let ins := own_pairs m tm r (er_consumed e) (er_dev e) (ab_inputs ab) in
+    let fin := fold_left (merge (aid_accum a)) ins ([], vzero (aid_dim a)) in
+    let v1 := fold_mods (look_of m) tm (snd fin) (ab_mods ab) in
+    let rs := fst fin ++ cond_results (look_of m) tm v1 (ab_conds ab) in
+    let d' := data_update (vdelta tm) (old_data m a) (law rs v1) (convert (aid_dim a) v1) in
+    lookup a (o_actions (er_out e)) = Some d' /\
+    vdim (d_value d') = aid_dim a /\
+    o_events (er_out e) <> None /\
+    (regular (aid_accum a) (aid_dim a) ins = true ->
+       fst fin = concat (map fst (contrib ins)) /\
+       snd fin = merged_value (aid_accum a) (aid_dim a) (contrib ins)))
+    (evaluations tm r c gs).
+Proof.
+  intros tm r c gs. eapply Forall_impl; [|apply evaluations_ok].
+  intros e Hok. unfold rec_ok in Hok. cbv zeta.
+  pose proof (action_update_merged (er_table e) tm r (er_consumed e) (er_dev e) (er_recipients e) (er_bind e)) as H.
+  cbv zeta in H. unfold merged_pair in H. rewrite <- Hok in H. destruct H as [H1 H2].
+  split; [exact H1|]. split; [|split].
+  - match goal with |- vdim (d_value (data_update ?dt ?d ?s ?v)) = _ =>
+      destruct (data_update_fields dt d s v) as (_ & Hv & _); rewrite Hv end.
+    apply convert_dim.
+  - rewrite H2. discriminate.
+  - intros Hreg. destruct (most_significant_win _ _ _ Hreg) as (M1 & M2 & _). split; [exact M1 | exact M2].
+Qed.
+Print Assumptions C04_every_evaluation_of_a_frame.
